@@ -170,7 +170,7 @@ CHECKS['C13'] = {
     'unproved': ['reference-grouping correctness of the whole expression parser', 'keyword table content (KEYWORDS) and IS NOT / NOT IN keyword fusion', 'statement grammar (parse_select ...)'],
 }
 CHECKS['C14'] = {
-    'verus_units': ['parser', 'tokenizer', 'converter'],
+    'verus_units': ['parser', 'tokenizer', 'converter', 'extract'],
     'clause_prefixes': ['c14'],
     'technique': 'contract-based deductive verification (Verus) of tokenize (with its local TokenizerState), TokenLocation::extract_near and the parser\'s token cursor (Parser::new/next/current/current_location/create_error/expect_token/expect_and_consume_token, ParserError::new) extracted from /repo',
     'claim': 'Proof for every text that tokenize cannot panic, that the line/column it keeps are the position of the consumed prefix, that every token and every tokenizer error is located inside the text (the position of some offset 0..=len) and that the token vector ends with Token::End; proof that TokenLocation::extract_near cannot panic for any location and text (every word range lies inside the line, no index underflow); proof that parse / parse_select / parse_multiple_create_table / parse_create_table / parse_define_column / parse_type (a statement is accepted only if every token up to End was consumed; every clause loop keeps the cursor on a token) and the operand-level functions (parse_primary_expression, parse_identifier_expression, parse_list, parse_arguments, consume_identifier / consume_string / consume_int, expect_and_consume_operator) keep the cursor on a token and fail with a located error instead of panicking; proof (cursor kernel) that once the first next() succeeded the parser cursor stays inside the token vector, next() at the end is an error and not a step, current()/current_location() never index out of bounds and every error created carries the location of a real token. "Any text yields a statement or a located error" for the recursive-descent grammar functions and the tree converter is NOT decided.',
@@ -178,7 +178,7 @@ CHECKS['C14'] = {
     'level': 'proof',
     'explanation': 'Tokenizer: loop invariant at_offset(state, text, n) (rest of the iterator = text.skip(n), line = number of line breaks and column = characters after the last line break of text.take(n)); next_char and add carry it in universally quantified postconditions. Cursor safety is the invariant 0 <= index < tokens.len() established by next() and required by every accessor.',
     'trusted': COMMON_TRUST,
-    'unproved': ['Parser::parse_regex_mode (match guards: Verus loses the frame)', 'parser_tree_converter: transform_expression arms IN / Call / CASE, extract_aggregate, create_create_table_statement', 'TableDefinition::new'],
+    'unproved': ['Parser::parse_regex_mode (match guards: Verus loses the frame)', 'parser_tree_converter: transform_expression arms IN / Call / CASE, extract_aggregate, create_create_table_statement (iterator closures)'],
 }
 
 CHECKS['C12'] = {
